@@ -281,7 +281,9 @@ def run_model(prop, cases, rundir, log):
     to = prop.get("model_timeout", 3000)
 
     def one(k):
-        return sh([exe, paths[k]], timeout=to)
+        # the extracted model is plain structural recursion: give it a large stack (a wedged run can leave a trace of
+        # several hundred thousand labels)
+        return sh(["sh", "-c", 'ulimit -s unlimited 2>/dev/null || ulimit -s 4000000 2>/dev/null; exec "$0" "$1"', exe, paths[k]], timeout=to)
     summary = {"agree": 0, "differ": 0, "violates": 0, "bad": 0, "lines": 0}
     non = []
     errors = []
@@ -289,8 +291,8 @@ def run_model(prop, cases, rundir, log):
     with concurrent.futures.ThreadPoolExecutor(max_workers=nshard) as ex:
         for k, (rc, out, dt) in enumerate(ex.map(one, range(nshard))):
             if rc != 0:
+                # keep the verdicts the shard printed before it died: a violation found there is still a violation
                 errors.append("modelrun shard %d rc=%d: %s" % (k, rc, out[-300:]))
-                continue
             for line in out.splitlines():
                 if line.startswith("SUMMARY"):
                     for kv in line.split()[1:]:
